@@ -250,34 +250,38 @@ def make_lf(sm, rng, expm=None, lengths=None, params=None, mprobs=None, tree=Non
     tree = make_tree(tree or TREE)
     with warnings.catch_warnings():
         warnings.simplefilter("ignore")
-        kw = {}
-        if expm is not None:
-            kw["expm"] = expm
-        lf = sm.make_likelihood_function(tree, **kw)
-        names = list(getattr(sm, "parameter_order", []))
-        if params is None:
-            params = {p: rand_param(rng) for p in names}
-        for p, v in params.items():
-            lf.set_param_rule(p, init=v)
-        if lengths is None:
-            lengths = {e: rand_length(rng) for e in EDGES}
-        if not is_discrete(sm):
-            for e, t in lengths.items():
-                lf.set_param_rule("length", edge=e, init=t)
-        fixed_mprobs = sm.motif_probs is not None and not sm._optimise_motif_probs
-        if mprobs is None and not fixed_mprobs:
-            if sm._mprob_model == "monomers":
-                k = len(sm.mprob_model.get_input_alphabet())
-                mprobs = [rand_probs(rng, k) for _ in range(sm.word_length)]
-            else:
-                mprobs = rand_probs(rng, len(sm.mprob_model.get_input_alphabet()))
-        if mprobs is not None and not fixed_mprobs:
-            import numpy
+        try:
+            kw = {}
+            if expm is not None:
+                kw["expm"] = expm
+            lf = sm.make_likelihood_function(tree, **kw)
+            names = list(getattr(sm, "parameter_order", []))
+            if params is None:
+                params = {p: rand_param(rng) for p in names}
+            for p, v in params.items():
+                lf.set_param_rule(p, init=v)
+            if lengths is None:
+                lengths = {e: rand_length(rng) for e in EDGES}
+            if not is_discrete(sm):
+                for e, t in lengths.items():
+                    lf.set_param_rule("length", edge=e, init=t)
+            fixed_mprobs = sm.motif_probs is not None and not sm._optimise_motif_probs
+            if mprobs is None and not fixed_mprobs:
+                if sm._mprob_model == "monomers":
+                    k = len(sm.mprob_model.get_input_alphabet())
+                    mprobs = [rand_probs(rng, k) for _ in range(sm.word_length)]
+                else:
+                    mprobs = rand_probs(rng, len(sm.mprob_model.get_input_alphabet()))
+            if mprobs is not None and not fixed_mprobs:
+                import numpy
 
-            if sm._mprob_model == "monomers":
-                lf.set_motif_probs([numpy.array(m) for m in mprobs])
-            else:
-                lf.set_motif_probs(numpy.array(mprobs))
+                if sm._mprob_model == "monomers":
+                    lf.set_motif_probs([numpy.array(m) for m in mprobs])
+                else:
+                    lf.set_motif_probs(numpy.array(mprobs))
+        except Exception as e:  # let the caller report WHICH in-bounds values the implementation raised on
+            e.c05_info = dict(params=params, lengths=lengths, mprobs=mprobs)
+            raise
     return lf, dict(params=params, lengths=lengths, mprobs=mprobs)
 
 
